@@ -22,21 +22,33 @@ D4 == << N("RAWDEF", 0, "{ s ", "") >>
 \* D5: mutation M { m3  m1 { s } }
 D5 == << N("OP", 0, "M", "mutation"), N("F", 1, "m3", ""), N("F", 1, "m1", ""), N("F", 3, "s", "") >>
 
+\* D6: a variable nested two levels deep in a literal:  query ($n: Int) { h(i: {r: 1, l: [2, $n]}) }
+D6 == << [N("OP", 0, "", "query") EXCEPT !.vdefs = <<VDef("n", <<"Int">>)>>],
+         [N("F", 1, "h", "") EXCEPT !.args = <<[name |-> "i", val |-> [t |-> "obj", v |-> << <<"r", [t |-> "int", v |-> 1]>>,
+                                                  <<"l", [t |-> "list", v |-> <<[t |-> "int", v |-> 2], [t |-> "var", v |-> "n"]>>]>> >>]]>>] >>
+\* D7 (invalid): a fragment cycle     { ...F }  fragment F on Query { s ...F }
+D7 == << N("OP", 0, "", "query"), N("S", 1, "F", ""), [N("FRAG", 0, "F", "") EXCEPT !.cond = "Query"], N("F", 3, "s", ""), N("S", 3, "F", "") >>
+\* D8 (invalid, another rule): { s(zz: 1) }
+D8 == << N("OP", 0, "", "query"), [N("F", 1, "s", "") EXCEPT !.args = <<[name |-> "zz", val |-> [t |-> "int", v |-> 1]]>>] >>
+
 DocsStd == [ D1 |-> [class |-> "valid", nodes |-> D1], D2 |-> [class |-> "valid", nodes |-> D2],
              D3 |-> [class |-> "invalid", nodes |-> D3], D4 |-> [class |-> "broken", nodes |-> D4],
-             D5 |-> [class |-> "valid", nodes |-> D5] ]
+             D5 |-> [class |-> "valid", nodes |-> D5], D6 |-> [class |-> "valid", nodes |-> D6],
+             D7 |-> [class |-> "invalid", nodes |-> D7], D8 |-> [class |-> "invalid", nodes |-> D8] ]
 
 Rq(d, sp, opn, g) == [doc |-> d, spelling |-> sp, opName |-> opn, given |-> g]
 PoolStd == { Rq("D1", "str", "A", <<>>), Rq("D1", "str", "B", <<>>), Rq("D1", "bytes", "A", <<>>), Rq("D1", "str", "", <<>>),
              Rq("D1", "str", "Zzz", <<>>),
              Rq("D2", "str", "", [v |-> Bool(TRUE)]), Rq("D2", "str", "", [v |-> Bool(FALSE)]), Rq("D2", "bytes", "", <<>>),
-             Rq("D3", "str", "", <<>>), Rq("D4", "str", "", <<>>), Rq("D4", "bytes", "", <<>>), Rq("D5", "str", "M", <<>>) }
+             Rq("D3", "str", "", <<>>), Rq("D4", "str", "", <<>>), Rq("D4", "bytes", "", <<>>), Rq("D5", "str", "M", <<>>),
+             Rq("D6", "str", "", [n |-> Int(3)]), Rq("D6", "str", "", [n |-> Int(4)]), Rq("D6", "bytes", "", <<>>), Rq("D7", "str", "", <<>>), Rq("D8", "str", "", <<>>) }
 \* C18: the operation-selection x variables matrix (one request per behaviour)
 PoolEnv == PoolStd \cup { Rq("D2", "str", "", [v |-> Bool(TRUE), extra |-> Int(1)]), Rq("D2", "str", "", [v |-> Null]),
                           Rq("D2", "str", "Nope", [v |-> Bool(TRUE)]), Rq("D5", "str", "", <<>>), Rq("D5", "bytes", "X", <<>>),
                           Rq("D3", "bytes", "A", <<>>), Rq("D4", "str", "A", [v |-> Bool(TRUE)]) }
 PoolSmall == { Rq("D1", "str", "A", <<>>), Rq("D1", "bytes", "B", <<>>), Rq("D2", "str", "", [v |-> Bool(TRUE)]), Rq("D2", "str", "", [v |-> Bool(FALSE)]),
-               Rq("D2", "str", "", <<>>), Rq("D3", "str", "", <<>>), Rq("D4", "str", "", <<>>), Rq("D5", "str", "M", <<>>) }
+               Rq("D2", "str", "", <<>>), Rq("D3", "str", "", <<>>), Rq("D4", "str", "", <<>>), Rq("D5", "str", "M", <<>>),
+               Rq("D6", "str", "", [n |-> Int(3)]), Rq("D6", "str", "", [n |-> Int(4)]), Rq("D7", "str", "", <<>>), Rq("D8", "str", "", <<>>) }
 
 ASSUME PrintT(ToJson([kind |-> "schema", types |-> TypesExec, roots |-> RootsExec]))
 ASSUME PrintT(ToJson([kind |-> "docs", docs |-> DocsStd]))
